@@ -141,9 +141,27 @@ func runC15(w *h.W, batch int) {
 					crashDesc = fmt.Sprintf("%s#%d", spec.CrashPoint, spec.CrashAt)
 				}
 			}
+			if hi == 2 {
+				// slow seals (a loaded machine): retention then shifts out fractions whose seal is still running, followed by
+				// fractions that are already sealed; what is on disk at a crash must still be a suffix of the ingestion order
+				spec.SlowPoints = map[string]int{"seal.index.created": 40, "seal.sdocs.created": 40}
+				if !final && hr.Chance(1, 3) {
+					// extreme case of a slow seal: the k-th seal of this process lifetime never finishes (its goroutine is parked
+					// before the index is written); the process is killed at the end of the ingestion
+					spec.SlowPoints = nil
+					spec.HoldPoint, spec.HoldAt = "seal.index.created", int64(hr.Range(1, 3))
+					spec.CrashPoint, spec.CrashAt = "", 0
+					spec.Steps = append(spec.Steps, phaseStep{Op: "crash"})
+					crashDesc = fmt.Sprintf("kill at the end; seal #%d parked forever", spec.HoldAt)
+				} else if spec.CrashPoint != "" && hr.Chance(1, 2) {
+					spec.CrashPoint = h.Pick(hr, []string{"fm.retention.shifted", "sealed.suicide.sdocs_removed", "sealed.suicide.index_renamed", "sealed.suicide.begin", "active.release.meta_removed"})
+					spec.CrashAt = int64(hr.Range(1, 8))
+					crashDesc = fmt.Sprintf("%s#%d", spec.CrashPoint, spec.CrashAt)
+				}
+			}
 			specPath := filepath.Join(work, fmt.Sprintf("spec-%d.json", round))
 			writeSpec(specPath, spec)
-			desc := map[string]any{"history": fmt.Sprintf("b%d/h%d", batch, hi), "round": round, "frac_size": opt.FracSize, "total_size": opt.TotalSize, "restart_after": prevCrash, "tear_applied": prevTear,
+			desc := map[string]any{"history": fmt.Sprintf("b%d/h%d", batch, hi), "round": round, "slow_seals": hi == 2, "frac_size": opt.FracSize, "total_size": opt.TotalSize, "restart_after": prevCrash, "tear_applied": prevTear,
 				"bulks_known": len(bulks) - len(fresh), "then_ingest": len(fresh), "then_crash_at": crashDesc}
 			active := w.Begin(desc)
 			vpath := filepath.Join(work, fmt.Sprintf("vspec-%d.json", round))
